@@ -19,6 +19,7 @@ struct Cfg {
     sort: bool,
     filter_ecu: Option<u8>,
     tail: usize,                  // live tail: messages the producer keeps sending (1 s apart) once the consumer is gone
+    restarting: bool,             // ... in which the ECU restarts every 30 s (a lifecycle is always under observation)
     msgs: Vec<M>,
 }
 
@@ -43,6 +44,7 @@ fn parse(case: &str) -> Cfg {
         sort: opts[1] == 1,
         filter_ecu: if opts[2] < 0 { None } else { Some(opts[2] as u8) },
         tail: opts.get(3).copied().unwrap_or(0).max(0) as usize,
+        restarting: opts.get(4).copied().unwrap_or(0) == 1,
         msgs: parse_case(p[4].trim()),
     }
 }
@@ -124,6 +126,7 @@ fn run_bounded(c: &Cfg) -> (String, bool, Option<bool>) {
     let ppace = c.ppace.clone();
     let d0 = done_tx.clone();
     let tail = c.tail;
+    let restarting = c.restarting;
     let gone = std::sync::Arc::new(std::sync::atomic::AtomicBool::new(false));
     let gone_p = gone.clone();
     let perr = std::sync::Arc::new(std::sync::atomic::AtomicBool::new(false));
@@ -152,7 +155,12 @@ fn run_bounded(c: &Cfg) -> (String, bool, Option<bool>) {
             // (paced: the failure has to travel upstream through every stage thread, which takes a few scheduler wake-ups;
             //  a source that dumps its whole tail into the channels within microseconds would not be a live one)
             for k in 0..tail * 10 {
-                let m = M { ecu: 0, recv: base_recv + (k as u64 + 1) * 1_000_000, ts: last.ts.saturating_add((k as u32 + 1).saturating_mul(10_000)), has_ts: true, ctrl: false };
+                // (restarting: a boot of 25 s - one message per second, time stamps from 0 - every 30 s)
+                let ts = if restarting { (k as u32 % 30).min(25) * 10_000 } else { last.ts.saturating_add((k as u32 + 1).saturating_mul(10_000)) };
+                if restarting && k % 30 > 25 {
+                    continue;
+                }
+                let m = M { ecu: 0, recv: base_recv + (k as u64 + 1) * 1_000_000, ts, has_ts: true, ctrl: false };
                 let mut d = mk(&m);
                 d.index = (msgs.len() + k) as u32;
                 if sync_sender_send_delay_if_full(d, &tx0).is_err() {
@@ -286,7 +294,17 @@ fn gen(rng: &mut Rng, tier: u32) -> String {
             caps[0] = "2".to_string();
         }
     }
-    format!("{} | {} | {} | {} {} {} {} | {}", caps.join(" "), pp, cp, drop, sort as u8, fe, tail, lcs)
+    // half of the live sources restart every 30 s: the detector then always has a lifecycle under observation, never forwards
+    // directly, and meets the closed channel only when a confirmation releases queued messages
+    let restarting = tail > 0 && rng.chance(2);
+    if restarting {
+        for c in caps.iter_mut() {
+            if c == "1000" {
+                *c = "3".to_string();
+            }
+        }
+    }
+    format!("{} | {} | {} | {} {} {} {} {} | {}", caps.join(" "), pp, cp, drop, sort as u8, fe, tail, restarting as u8, lcs)
 }
 
 impl Area for Pipe {
